@@ -65,11 +65,16 @@ def fieldPropsOpen : List String := []
 none (YMODULE, THELCOEF, HEATCR, HEATCRT were fixed in 0d2fae2e6) -/
 def fieldPropsMismatchOpen : List String := []
 
-/-- UDA controls whose `uda_dim` differs from the dimension of the deck item (OPEN FINDING, only
-visible when a run is restarted with such a UDA active): the ALQ item of WCONPROD has no dimension
-(factor 1) but `uda_dim(WCONPROD_LIFT)` says `gas_surface_rate` (marked @TODO in the source; the right
-dimension depends on the VFP table's ALQ type).  The RESV controls were fixed in ee5075475. -/
-def udaOpen : List String := ["WCONPROD_LIFT"]
+/-- UDA controls whose `uda_dim` differs from the dimension of the deck item (OPEN FINDINGS, only
+visible when a run is restarted with such a UDA active):
+* the RESV limits get `geometric_volume_rate` (FIELD: ft³/day) while the items WCONPROD/WCONINJE/GCONINJE
+  RESV carry rb/day (factor 5.6146 in FIELD, equal in METRIC/LAB/PVT-M).  A repair (ee5075475) was taken
+  back in dc1eee513 because tests/parser/UnitTests.cpp (UDA_Dimensions/Field) pins FT3/DAY;
+* the ALQ item of WCONPROD has no dimension (factor 1) but `uda_dim(WCONPROD_LIFT)` says
+  `gas_surface_rate` (marked @TODO in the source; depends on the VFP table's ALQ type).
+(`WELTARG_RESV` has no fixed deck item — WELTARG's NEW_VALUE is context dependent — so it is outside
+the comparison.) -/
+def udaOpen : List String := ["WCONINJE_RESV", "WCONPROD_RESV", "GCONINJE_RESV_MAX_RATE", "WCONPROD_LIFT"]
 
 /-- the (first) dimensioned item of keyword `kw` in the keyword JSON -/
 def itemDimsOfKw (kw : String) : Option (List String) :=
